@@ -372,7 +372,7 @@ static void recBotp(void)
 			okR = botpHOTPStepV(o[0], state);
 			sprintf(cls, "hotpSeq:ctr=%s", ctrName[c]);
 			jBegin(); jStr("op", "hotpSeq"); jStr("cls", cls); jInt("digit", (long long)digit); jOct("key", key, 32); jOct("ctr", ctr, 8);
-			jS("o1", o[0]); jS("o2", o[1]); jS("o3", o[2]); jOct("ctr2", ctr2, 8);
+			jS("o1", o[0]); jS("o2", o[1]); jS("o3", o[2]); jOct("ctr2", ctr2, 8); jS("ow", ov);
 			jBool("okW", okW != 0); jOct("ctrW", ctrW, 8); jBool("okR", okR != 0);
 			botpHOTPStepG(ctr2, state); jOct("ctrR", ctr2, 8); jEnd();
 		}
@@ -451,7 +451,6 @@ static void recBotp(void)
 		{
 			char o1[16], o2[16], ow[16]; tm_time_t t = (tm_time_t)(vxRand64() >> 20); bool_t okS, okW, okR; octet ctrW[8], ctrR[8];
 			size_t qlen = 4 + i;
-			if (i >= 9) continue;
 			c = (int)(i % 6);
 			vxRandBuf(key, 32); vxRandBuf(q, qlen); vxRandBuf(p, 64); vxRandBuf(s, 512); ctrClass(ctr, c);
 			if (c == 1) ctr[7] = 0xFE;
@@ -466,7 +465,7 @@ static void recBotp(void)
 			sprintf(cls, "ocraSeq:suite=%u:ctr=%s", (unsigned)i, ctrName[c]);
 			jBegin(); jStr("op", "ocraSeq"); jStr("cls", cls); jS("suite", suites[i]); jBool("okS", okS != 0); jOct("key", key, 32); jOct("q", q, qlen);
 			jOct("ctr", ctr, 8); jOct("p", p, 64); jOct("s", s, 512); jLimbs16("t", &t, 8);
-			jS("o1", o1); jS("o2", o2); jOct("ctr2", ctr2, 8); jBool("okW", okW != 0); jOct("ctrW", ctrW, 8);
+			jS("o1", o1); jS("o2", o2); jOct("ctr2", ctr2, 8); jS("ow", ow); jBool("okW", okW != 0); jOct("ctrW", ctrW, 8);
 			jBool("okR", okR != 0); jOct("ctrR", ctrR, 8); jEnd();
 		}
 	}
